@@ -618,7 +618,10 @@ def idle_reset(ctx, rule="R-IDLE-RESET"):
         ctx.unknown(rule, "admission guard fields not found")
         return
     n = 0
+    from .common import is_helper
     for fn in P.cls(S).methods.values():
+        if is_helper(fn):
+            continue        # analysed inlined into the anchor functions that call it
         for r in runs(ctx, fn):
             ss = [(i, e) for i, e in r.effects() if e.kind == "store" and e.target == field("state") and e.value == idle]
             if not ss:
@@ -639,7 +642,7 @@ def idle_reset(ctx, rule="R-IDLE-RESET"):
     # converse: the identity is forgotten ONLY together with the return to IDLE - while a transaction is open (any other state)
     # the admission guard needs it to recognise the running requester
     for fn in P.cls(S).methods.values():
-        if fn.name == "__init__":
+        if fn.name == "__init__" or is_helper(fn):
             continue
         seen = set()
         for r in runs(ctx, fn):
@@ -737,7 +740,10 @@ def key_dom(ctx, rule="R-KEY-DOM"):
         for _, e in r.effects():
             if e.kind == "ret":
                 w = mk_cmp("==", ("call", field("_key_from_seed"), (("p", "seed"),), ()), ("p", "key"))
-                okv = e.value == w
+                val = e.value
+                while val[0] == "call" and val[1] == ("glob", "bool") and len(val[2]) == 1 and not val[3]:
+                    val = val[2][0]
+                okv = val == w
                 if not okv:
                     ctx.violated(rule, v, "verify_key <=> algorithm(seed) == key", "returns %s" % pretty(e.value), e.node)
     if okv:
@@ -1124,7 +1130,11 @@ def admit(ctx, rule="R-ADMIT-FIRST", rule_busy="R-BUSY-BRANCH"):
                 if b.get("state") != enumv(ctx, "ResponseState", "SEND_ERROR"):
                     pr.append("builder case %s" % pretty(b.get("state")))
                 er = b.get("error")
-                okerr = er is not None and er[0] == "ife" and er[3] == ("c", 0x2) and er[2] == field("error")
+                # (error if error != 0 else 2), in either orientation of the conditional expression
+                zero = mk_cmp("==", field("error"), ("c", 0))
+                okerr = er is not None and er[0] == "ife" and (
+                    (er[1] == mk_not(zero) and er[2] == field("error") and er[3] == ("c", 0x2)) or
+                    (er[1] == zero and er[2] == ("c", 0x2) and er[3] == field("error")))
                 if not okerr:
                     pr.append("error indicator %s (expected the configured error, else 0x2 busy)" % pretty(er))
                 # fields written inside the builder for this constant case
